@@ -75,7 +75,7 @@ Definition num_find (NT : ntable) (t : bytes) : option (option N) :=
   match find (fun e => bytes_eqb (fst e) t) NT with Some (_, v) => Some v | None => None end.
 Definition numval_of (NT : ntable) (t : bytes) : option N :=
   match num_find NT t with Some v => v | None => None end.
-Definition tbl_parse (fl : flavour) (NT : ntable) (t : bytes) : jparse := parse_text fl (numval_of NT) t.
+Definition tbl_parse (fl : flavour) (NT : ntable) (t : bytes) : jparse := parse_json fl (numval_of NT) t.
 
 Inductive env := EHttp (e : envelope) | EWs (p : proto) (did_init : bool) (f : option frame).
 
